@@ -217,6 +217,33 @@ pub fn build<I: Inst>(b: GenericPurlBuilder<I::T>) -> Result<Result<GenericPurl<
     guard(|| b.build().map_err(|e| I::err_kind(&e)))
 }
 
+/// `Display` invoked with format flags (width, fill, alignment, precision, sign, alternate, zero).
+/// Two behaviours are right: ignoring the flags (the canonical string, which is what the pinned code
+/// does) and treating the canonical string as a whole the way `str` does (padded / truncated as one
+/// unit). Anything else - a flag applied to one part of the output - corrupts the string.
+pub fn check_flags<T: std::fmt::Display>(v: &T, canonical: &str, what: &str) -> Result<(), String> {
+    macro_rules! one {
+        ($spec:literal) => {{
+            let got = guard(|| format!($spec, v)).map_err(|m| format!("{what}: formatting with {:?} panicked: {m}", $spec))?;
+            let whole = format!($spec, canonical);
+            if got != canonical && got != whole {
+                return Err(format!("{what}: formatted with {:?} it prints {got:?}; the canonical string is {canonical:?}", $spec));
+            }
+        }};
+    }
+    one!("{:8}");
+    one!("{:>40}");
+    one!("{:<60.5}");
+    one!("{:.3}");
+    one!("{:^7}");
+    one!("{:08}");
+    one!("{:+}");
+    one!("{:#}");
+    one!("{:*<30}");
+    one!("{:1.0}");
+    Ok(())
+}
+
 pub fn known_type_index(name_lower: &str) -> Option<usize> {
     crate::chars::KNOWN_TYPES.iter().position(|t| *t == name_lower)
 }
